@@ -15,6 +15,15 @@ def ops : List (String × Handler) := [
     match tauEnergyBatch t evs with
     | .ok es => "ok " ++ hs es
     | .error .outOfBounds => "err oob"
+    | .error .misaligned => "err misaligned"),
+  -- pexitbatch v n (b le)*n : the exit-probability batch as the code computes it (floor, masks, sub-batches, scatter, 10**)
+  ("pexitbatch", fun a =>
+    let t := Driver.C04.pexOf (a.getD 0 "3")
+    let n := nat (a.getD 1 "0")
+    let evs : List (Pv Float) := (List.range n).map fun k => { b := arg a (2 + 2*k), le := arg a (3 + 2*k) }
+    match (pexitBatch t evs).2 with
+    | .ok es => "ok " ++ hs es
+    | .error .outOfBounds => "err oob"
     | .error .misaligned => "err misaligned")
 ]
 end Driver.C11
